@@ -619,9 +619,9 @@ class Interp:
             raise Unsupported("constructor of external base of %s" % cls.name)
         return o
 
-    def call_function(self, f, args, kwargs):
+    def call_function(self, f, args, kwargs, bypass_contract=False):
         qn = f.qualname()
-        contract = self.call_contracts.get(qn)
+        contract = None if bypass_contract else self.call_contracts.get(qn)
         if contract is not None:
             return contract(self, args, kwargs)
         if f.kind.startswith("decorated:"):
